@@ -3,28 +3,132 @@ Oracle (metamorphic): the batch mode of the same build.  Library level: derived 
 AnalyzedSource vs AnalyzedSource::new(final text), errors() equality, tree invariants — evaluated in the adaptor after every
 step of a history in which step k+1 starts from the *updated* state of step k.  LSP level: last publishDiagnostics and a
 request panel of the edited document vs the same text opened fresh under another URI on the same server.
-Deciding sub-space: edits whose source and result are syntactically valid (see DESIGN.md section 5/C01); edits through
-syntactically broken states are replayed from committed witnesses (known findings)."""
+Every state is compared: atomic valid->valid edits, the same edits typed key by key through syntactically broken texts, and
+single-token damages with their repair (see DESIGN.md section 5/C01); the witnesses of the divergences repaired in the build
+phase are replayed as regression tests."""
 import json, os, random
 from ..core import Adaptor, Part, pmap, NCPU, server_bin, adaptor_bin, VERIF
 from ..client import Server, ServerDied, Timeout, FrameError, tdp
 from .. import gen, layout, edits
 
 
-def make_history(rng, maxsteps):
+def make_history(rng, maxsteps, single=False, sizes=(1, 2, 3, 4, 6, 8)):
     seed = rng.getrandbits(32)
     doc = edits.Doc(seed, rng, typed=rng.random() < .75, eol=rng.choice(["\n", "\n", "\r\n"]), style=rng.choice(["random", "random", "spaced", "lines"]),
-                    size=rng.choice([1, 2, 3, 4, 6, 8]), depth=rng.choice([1, 2, 3, 4]), edepth=rng.choice([1, 2, 3]))
+                    size=rng.choice(sizes), depth=rng.choice([1, 2, 3, 4]), edepth=rng.choice([1, 2, 3]))
     text0 = doc.text
     steps = []; labels = []
     for _ in range(rng.randint(1, maxsteps)):
         batch = []
-        for _ in range(rng.choice([1, 1, 1, 1, 2, 3, 4])):
-            r = doc.step()
+        for _ in range(1 if single else rng.choice([1, 1, 1, 1, 2, 3, 4])):
+            r = doc.step(widen=0.0) if single else doc.step()
             if r is None: break
             labels.append(r[0]); batch.append(r[1])
         if batch: steps.append(batch)
     return text0, steps, labels, doc
+
+
+def _chars(b):
+    """byte offsets of the character boundaries of b"""
+    return [i for i in range(len(b) + 1) if i == len(b) or (b[i] & 0xC0) != 0x80]
+
+
+def expand_typing(rng, text0, steps):
+    """the same history as a user produces it: every replaced range is deleted (at once = selection, or by backspaces from its end,
+    or by the delete key from its start) and the new text is typed character by character or pasted in small chunks.
+    Most intermediate texts are syntactically broken; the last step of every edit reaches the valid text of the original history."""
+    out = []; cur = text0.encode()
+    for batch in steps:
+        for (a, b, new) in batch:
+            old = cur[a:b]
+            if old:
+                how = rng.choice(["select", "backspace", "delete", "backspace"]) if len(old) < 60 else "select"
+                if how == "select": out.append([[a, b, ""]])
+                else:
+                    bs = [a + i for i in _chars(old)]
+                    if how == "backspace":
+                        for i in range(len(bs) - 1, 0, -1): out.append([[bs[i - 1], bs[i], ""]])
+                    else:
+                        for i in range(1, len(bs)): out.append([[a, a + bs[i] - bs[i - 1], ""]])
+            pos = a
+            chunk = rng.choice([1, 1, 1, 2, 5])
+            i = 0
+            while i < len(new):
+                n = 1 if chunk == 1 else rng.randint(1, chunk)
+                piece = new[i:i + n]; i += n
+                out.append([[pos, pos, piece]]); pos += len(piece.encode())
+                if rng.random() < .03 and piece:          # typo: one more character, removed again by backspace
+                    out.append([[pos, pos, rng.choice("x;({ 1")]]); out.append([[pos, pos + 1, ""]])
+            cur = cur[:a] + new.encode() + cur[b:]
+    return out
+
+
+DAMAGE = ["(", ")", "{", "}", ";", ":=", "if", "else", "while", "x", "1", ",", "[", "]", "var", "proc", "type", ":", "=", "<", "+", "-", "// c\n", "'", "0x", "of", "array", "ref", "main", "'a'", "*"]
+_LEXEME = None
+
+
+def make_damage_history(rng):
+    """a valid program and 1-4 single-token damages (delete / insert / replace a lexeme), half of the time followed by their
+    repair in reverse order: every state but the first (and the last after a complete repair) is syntactically broken"""
+    import re
+    global _LEXEME
+    if _LEXEME is None: _LEXEME = re.compile(rb"//[^\n]*|'.'|'\\n'|[A-Za-z_0-9]+|:=|<=|>=|[(){}\[\];:,=<>+\-*/#]")
+    P = gen.generate(rng.getrandbits(32), size=rng.choice([1, 1, 2, 3]), depth=rng.choice([1, 2, 3]), edepth=rng.choice([1, 2]), docs=.15, stmt_comments=.08,
+                     typed=rng.random() < .7, max_stmts=rng.choice([2, 3]))
+    text = layout.layout(P, rng, rng.choice(["spaced", "spaced", "random", "lines"]), rng.choice(["\n", "\n", "\r\n"]))
+    cur = text; steps = []; undo = []
+    for _ in range(rng.randint(1, 4)):
+        b = cur.encode()
+        words = [(m.start(), m.end()) for m in _LEXEME.finditer(b)]
+        if not words: break
+        a, e = rng.choice(words)
+        op = rng.random()
+        if op < .4: ch = [a, e, ""]
+        elif op < .7: ch = [a, a, rng.choice(DAMAGE) + " "]
+        else: ch = [a, e, rng.choice(DAMAGE)]
+        undo.append([ch[0], ch[0] + len(ch[2].encode()), b[ch[0]:ch[1]].decode()])
+        steps.append([ch]); cur = edits.apply_change(cur, ch)
+    if rng.random() < .5: steps += [[u] for u in reversed(undo)]
+    return text, steps
+
+
+def worker_damage(args):
+    seed, nhist = args
+    rng = random.Random("C01/damage/%s" % seed)
+    ad = Adaptor(); part = Part()
+    for it in range(nhist):
+        text0, steps = make_damage_history(rng)
+        if not steps: continue
+        sc = {"kind": "history", "text": text0, "steps": steps, "labels": ["damage"] * len(steps)}
+        res = ad.call(op="history", text=text0, steps=steps)
+        if res.get("div") or res.get("update_panic") is not None: sc["steps"] = steps[:res.get("step", (res.get("div") or {}).get("step", len(steps))) + 1]
+        ok = judge_history(part, res, sc, ["damage"] * (len(steps) + 1))
+        part.cnt("damage_steps", res.get("steps_done", 0))
+        if ok:
+            part.see("damage:%d" % len(steps))
+            if it == 0: part.sample({"part": "damage history", "initial_text": text0[:120], "changes": steps[:4]}, 1)
+    ad.close()
+    return part
+
+
+def worker_typing(args):
+    seed, nhist = args
+    rng = random.Random("C01/typing/%s" % seed)
+    ad = Adaptor(); part = Part()
+    for it in range(nhist):
+        text0, steps, labels, doc = make_history(rng, 5, single=True, sizes=(1, 1, 2, 3, 4))
+        if not steps: continue
+        keys = expand_typing(rng, text0, steps)
+        sc = {"kind": "history", "text": text0, "steps": keys, "labels": labels}
+        res = ad.call(op="history", text=text0, steps=keys)
+        if res.get("div") or res.get("update_panic") is not None: sc["steps"] = keys[:res.get("step", (res.get("div") or {}).get("step", len(keys))) + 1]
+        ok = judge_history(part, res, sc, ["typing"] * (len(keys) + 1))
+        part.cnt("keystroke_steps", res.get("steps_done", 0))
+        if ok:
+            for l in labels: part.see("typed:" + l.split("/")[0])
+            if it == 0: part.sample({"part": "typing history", "initial_text": text0[:120], "edit_classes": labels[:5], "first_keystrokes": keys[:12], "judged_steps": res.get("judged")}, 1)
+    ad.close()
+    return part
 
 
 def judge_history(part, res, sc, labels):
@@ -163,37 +267,54 @@ def replay_witnesses(ctx):
             if res.get("div") or res.get("update_panic"): still += 1
         if still: ctx.known(f["id"], "%s [%d of %d witnesses still diverge]" % (f["what"], still, len(w["scenarios"])))
         else: ctx.extra.setdefault("witnesses_no_longer_failing", []).append(f["id"])
+    # repaired defects: their witnesses are regression tests, a divergence is a violation again
+    for f in ctx.findings:
+        if f.get("property") != "C01" or f.get("status") != "fixed" or not f.get("regression_witness"): continue
+        with open(os.path.join(VERIF, f["regression_witness"])) as fh: w = json.load(fh)
+        for sc in w["scenarios"]:
+            kw = {"judge": sc["judge"]} if sc.get("judge") else {}
+            res = ad.call(op="history", text=sc["text"], steps=sc["steps"], **kw)
+            ctx.count(); ctx.extra["regression_witnesses_replayed"] = ctx.extra.get("regression_witnesses_replayed", 0) + 1
+            if res.get("div") or res.get("update_panic") or res.get("fresh_panic"):
+                d = res.get("div") or {}
+                ctx.violation("the repaired defect %s (%s) is back: after step %s the updated document differs from a fresh analysis in %s" % (f["id"], f["commit"], d.get("step", res.get("step")), d.get("what")),
+                              dict(sc, kind="history"))
     ad.close()
 
 
 def run(ctx):
     adaptor_bin(); server_bin("rel")
     replay_witnesses(ctx)
-    nhist = 250 if ctx.quick else 12000
+    nhist = 200 if ctx.quick else 12000
     for p in pmap(worker_lib, [("%s/%d" % (ctx.seed, i), nhist, 20) for i in range(NCPU)]): ctx.merge(p)
+    nt = 16 if ctx.quick else 700
+    for p in pmap(worker_typing, [("%s/%d" % (ctx.seed, i), nt) for i in range(NCPU)]): ctx.merge(p)
+    nd = 400 if ctx.quick else 20000
+    for p in pmap(worker_damage, [("%s/%d" % (ctx.seed, i), nd) for i in range(NCPU)]): ctx.merge(p)
     nl = 16 if ctx.quick else 500
     for p in pmap(worker_lsp, [("%s/%d" % (ctx.seed, i), nl, 10) for i in range(NCPU)]): ctx.merge(p)
     c = ctx.extra.get("counters", {})
     ctx.extra["reuse_note"] = "nodes_reused = %s, nodes_reparsed = %s (hook H2; reported, not judged: a tree that always re-parses satisfies the property)" % (c.get("nodes_reused"), c.get("nodes_reparsed"))
-    ctx.extra["sub_space"] = ("DECIDING SUB-SPACE: histories of 1-20 steps (1-4 changes per step, each relative to its predecessor) of edits whose source and result are syntactically valid: "
-                              "insert/delete/replace whole statements (any list position and depth), whole global/variable/parameter declarations, comment lines in leading positions, "
-                              "white space, literals, identifiers, whole expressions, typed characters in literals/identifiers, appends at the end; well-typed and ill-typed programs. "
-                              "Edits through syntactically broken text are NOT decided here; committed witnesses of divergences there are replayed as known findings.")
+    ctx.extra["sub_space"] = ("ALL STATES are compared. (1) Atomic edits, histories of 1-20 steps (1-4 changes per step, each relative to its predecessor) whose source and result are syntactically valid: "
+                              "insert/delete/replace whole statements (any list position and depth), whole global/variable/parameter declarations, comment lines in leading positions and in arbitrary token gaps, "
+                              "white space, literals, identifiers, whole expressions, typed characters in literals/identifiers, appends at the end, else branches, arguments, ref, operators, parentheses, blocks; "
+                              "well-typed and ill-typed programs. (2) TYPING: the same kinds of edits delivered as keystrokes (ranges removed by selection, backspace or delete key; new text typed character "
+                              "by character or pasted in chunks of up to 5 characters, with occasional typos): most intermediate texts are syntactically broken; every step is compared. "
+                              "(3) DAMAGE: 1-4 single-token damages (delete / insert / replace a lexeme) of a valid program, half of the time repaired again in reverse order; every step is compared. "
+                              "(4) the witnesses of the divergences that were repaired in the build phase (all of them in broken states) are replayed as regression tests.")
     ctx.rule = "see sub_space; every step compared; distinct_nontrivial = distinct (edit class / sub-class) labels occurring in histories that were compared to the end"
     ctx.assumptions = ["AnalyzedSource::new is the reference for AnalyzedSource::update (metamorphic oracle: batch mode of the same build)",
-                       "the property is decided only on the valid<->valid sub-space stated under coverage.sub_space"]
+                       "broken states are reached by typing and by single-token damage; other routes into broken text (large pastes of garbage) are driven by C02 for crashes only"]
     ctx.floor("evaluations", ctx.evaluations, 10000)
     ctx.floor("edit classes exercised", len([k for k in c if k.startswith("edit:")]), 15)
     ctx.floor("LSP panel comparisons", c.get("panel_comparisons", 0), 100)
+    ctx.floor("keystroke steps", c.get("keystroke_steps", 0), 20000)
+    ctx.floor("single-token damage steps", c.get("damage_steps", 0), 3000)
 
 
 def replay(ctx, sc):
     part = Part()
-    if sc["kind"] == "history":
-        ad = Adaptor()
-        judge_history(part, ad.call(op="history", text=sc["text"], steps=sc["steps"]), sc, sc.get("labels", []))
-    else:
-        ad = Adaptor()
-        judge_history(part, ad.call(op="history", text=sc["text"], steps=sc["steps"]), sc, sc.get("labels", []))
-        part["inconclusive"] = part["inconclusive"] or []
+    kw = {"judge": sc["judge"]} if sc.get("judge") else {}
+    ad = Adaptor()
+    judge_history(part, ad.call(op="history", text=sc["text"], steps=sc["steps"], **kw), sc, sc.get("labels", []) or ["?"] * (len(sc["steps"]) + 1))
     ctx.merge(part); ctx.see(1); ctx.see(2)
